@@ -88,12 +88,14 @@ pub fn check_cell(acc: &mut Acc, sub: &str, rank: u64, p: &PR, r: &PO, m: &RV, i
     if expected != *m {
         acc.count("folded");
     }
-    match guard(|| lexpr::from_str_custom(&text, r.to_lexpr())) {
-        Err(pn) => acc.violation(sub, "parse-panic", &kindcls("parse-panic"), rank, w(), format!("text {:?}: {}", trunc(&text, 200), pn), case),
-        Ok(Err(e)) => acc.violation(sub, "not-readable", &kindcls("not-readable"), rank, w(), format!("the parser rejects the printed text {:?}: {}", trunc(&text, 200), e), case),
-        Ok(Ok(g)) => {
-            if let Err(e) = cmp_roundtrip(&expected, &RV::from_value(&g)) {
-                acc.violation(sub, "round-trip-differs", &kindcls("round-trip-differs"), rank, w(), format!("text {:?}; expected (after fold) {}: {}", trunc(&text, 200), trunc(&expected.to_string(), 200), e), case);
+    for (src, parsed) in [("from_str_custom", guard(|| lexpr::from_str_custom(&text, r.to_lexpr()))), ("from_reader_custom", guard(|| lexpr::from_reader_custom(text.as_bytes(), r.to_lexpr())))] {
+        match parsed {
+            Err(pn) => acc.violation(sub, "parse-panic", &kindcls("parse-panic"), rank, w(), format!("{}: text {:?}: {}", src, trunc(&text, 200), pn), case),
+            Ok(Err(e)) => acc.violation(sub, "not-readable", &kindcls("not-readable"), rank, w(), format!("{} rejects the printed text {:?}: {}", src, trunc(&text, 200), e), case),
+            Ok(Ok(g)) => {
+                if let Err(e) = cmp_roundtrip(&expected, &RV::from_value(&g)) {
+                    acc.violation(sub, "round-trip-differs", &kindcls("round-trip-differs"), rank, w(), format!("{}: text {:?}; expected (after fold) {}: {}", src, trunc(&text, 200), trunc(&expected.to_string(), 200), e), case);
+                }
             }
         }
     }
